@@ -587,6 +587,42 @@ seqspec('ModuloCounter', lambda tier: [dict(w=2, mod=3), dict(w=2, mod=4), dict(
         note='counts 0..mod-1 on inc, holds without inc, carry-out at mod-1')
 
 
+def b_clockdivider(D, p):
+    ck = D.wire('clkout')
+    ins = {}
+    kw = {}
+    if p['r']:
+        ins['reset'] = kw['reset'] = D.wire('reset')
+    else:
+        ins['unused'] = D.wire('unused')        # the sequence generator needs one input to enumerate
+    D.make('ClockDivider', 'dut', 2 * p['n'] * 10, 10, ck, **kw)
+    return ins, dict(clkout=ck)
+
+
+class ClockDividerModel(Model):
+    """modulo-n counter that always counts + toggle register on its carry; reset clears both"""
+
+    def __init__(self, p):
+        self.p, self.q, self.ck = p, 0, 0
+
+    def outputs(self):
+        return dict(clkout=self.ck)
+
+    def step(self, v):
+        if self.p['r'] and v['reset']:
+            self.q, self.ck = 0, 0
+            return
+        if self.q == self.p['n'] - 1:
+            self.ck ^= 1
+            self.q = 0
+        else:
+            self.q += 1
+
+
+seqspec('ClockDivider', lambda tier: prod(n=[1, 2, 3, 5], r=[False, True]), b_clockdivider, ClockDividerModel,
+        note='output toggles every n = f_in/(2 f_out) edges; reset restarts the period with the output low')
+
+
 def b_stepcounter(D, p):
     reset, inc, step, q = D.wire('reset'), D.wire('inc'), D.wire('step', p['w']), D.wire('q', p['w'])
     D.make('StepUpCounter', 'dut', reset, inc, step, q)
